@@ -21,7 +21,8 @@ func init() {
 			"every bit index handed out by the parser reaches the Binding value that is returned, for both spellings (R9.2); set/pop/merge maintain State and the per-frame masks consistently and merge hands the mask to the enclosing frame (R9.3); " +
 			"Parse refuses more names than the mask has bits (R9.4); a name is bound only when its sub-pattern matched and a recalled name is matched against the stored subtree (R9.5). " +
 			"It does NOT decide structural equality of recalled subtrees on all trees." +
-			" Also decided: the pattern returned by Parse owns its index-to-name table (fresh storage, never the parser's own table, which the next Parse on the same parser rewrites).",
+			" Also decided: the pattern returned by Parse owns its index-to-name table (fresh storage, never the parser's own table, which the next Parse on the same parser rewrites)." +
+			" Two node lists are compared element by element only after their lengths were found equal.",
 		RuleText:    "obligation = (rule, function::call site text); evaluated on the SSA CFG with path queries (push dominates, pop on every failing path, merge on every succeeding path) and forward/backward value flow",
 		Assumptions: []string{"failure of a sub-match that is returned unchanged to the caller is handled by the caller's frame (checked at the caller)"},
 		Run:         runC09,
